@@ -280,6 +280,13 @@ def table_obligations(ctx, tab):
     flat_r = float(np.sqrt(tab.X[1]) * nat.BOHR)
     ctx.ground("thakkar_interp/table/flat_zone_inside_exclusion", flat_r < 0.3, clause="the flat zone below the second knot (r < sqrt(x[1]) b) lies inside the 0.3 A exclusion radius of the statement",
                detail={"flat_radius_A": flat_r}, witness={"flat_radius_A": flat_r})
+    # rows are in element order: the number of electrons of row Z outside the first knot, N_Z = integral 4 pi r^2 rho_Z(r) dr over r = sqrt(x[j]) (trapezoid rule),
+    # is strictly increasing in Z and below Z — an independent physical reading of the data (a row filed under the wrong element breaks it)
+    rr = np.sqrt(np.asarray(tab.X, dtype=float))
+    Ns = [float(np.sum(0.5 * (4 * np.pi * rr[1:] ** 2 * R[k, 1:] + 4 * np.pi * rr[:-1] ** 2 * R[k, :-1]) * np.diff(rr))) for k in range(103)]
+    bad_rows = [k + 1 for k in range(102) if not Ns[k] < Ns[k + 1]] + [k + 1 for k in range(103) if not (0.55 * (k + 1) < Ns[k] <= (k + 1) * 1.001)]
+    ctx.ground("thakkar_interp/table/rows_in_element_order", not bad_rows, clause="the electron count of row Z outside the first knot is strictly increasing with Z and lies in (0.55 Z, Z]",
+               detail={"N_1": Ns[0], "N_6": Ns[5], "N_103": Ns[102]}, witness={"rows_out_of_order": bad_rows[:6], "N": [round(Ns[k - 1], 3) for k in bad_rows[:6]]})
     ctx.notes.append(f"table obligations {time.time() - t0:.1f}s")
 
 
